@@ -312,3 +312,29 @@ Example ex_hung_up_callee :
   snd (run cfg_r init [EConnect false; EConnect false; EHangup 1; ESend 0 call_plain; EDisconnect 1] [])
   = [(EDisconnect 1, [(0, OErr ENoReply 7)]); (ESend 0 call_plain, [(1, OFwd 0 call_plain)]); (EHangup 1, []); (EConnect false, []); (EConnect false, [])].
 Proof. vm_compute. reflexivity. Qed.
+
+
+(* ================================================================================================
+   Message types the bus does not know (TOther k), and refusals in general *)
+Theorem C09_unknown_type_changes_nothing : forall cf st c m,
+  unknown_type m = true -> resolve st (m_dest m) <> None ->
+  fst (dispatch cf st c m) = st /\
+  (snd (dispatch cf st c m) = [(c, OErr EAccessDenied (m_serial m))] \/ snd (dispatch cf st c m) = [(c, OErr ENotSupported (m_serial m))]).
+Proof. exact unknown_type_changes_nothing. Qed.
+Print Assumptions C09_unknown_type_changes_nothing.
+
+(* EVERY refusal of EVERY message type, REPLY_SERIAL or not, leaves the pending-reply table as it was, except the known class F7b
+   (a method call carrying REPLY_SERIAL bounced by the duplicate / limit test; a reply to a caller whose queue is full) *)
+Theorem C09_refused_leaves_table : forall cf st c m st' o,
+  dispatch cf st c m = (st', o) -> (forall x, fwd_to o x = false) ->
+  (is_call m = true -> m_rserial m = 0) ->
+  (forall r, resolve st (m_dest m) = Some r -> m_rserial m <> 0 -> is_full st r = false) ->
+  st_pend st' = st_pend st.
+Proof. exact refused_leaves_table. Qed.
+Print Assumptions C09_refused_leaves_table.
+
+Example ex_unknown_type_keeps_slot :
+  snd (run cfg_r init [EConnect false; EConnect false; ESend 0 call_plain; ESend 1 (mkMsg (TOther 9) false false 8 7 (DUnique 0) 0 2); ESend 1 reply_ok] [])
+  = [(ESend 1 reply_ok, [(0, OFwd 1 reply_ok)]); (ESend 1 (mkMsg (TOther 9) false false 8 7 (DUnique 0) 0 2), [(1, OErr EAccessDenied 8)]);
+     (ESend 0 call_plain, [(1, OFwd 0 call_plain)]); (EConnect false, []); (EConnect false, [])].
+Proof. vm_compute. reflexivity. Qed.
